@@ -10,6 +10,8 @@ terms over an abstract operation record, and coqc RE-PROVES the property's ident
     gen(norm_tensor, norm(core))                          =  || X - G x U ||^2               (C06_hooi_error_identity re-checked)
     gen(norm_X_sq, inner_product, norm_cmf_sq)            =  sum_i || X_i - B_i C^T ||^2     (C06_parafac2_error_identity re-checked)
     gen_line_iter(linesearch, iteration)                  =  Model/Errors.v:line_iter / the test inside p2_loop
+    flags read off the statement order of the parafac / non_negative_parafac / non_negative_parafac_hals loops satisfy `well_formed`
+    (error computed after the sweep and before the append, no normalisation and no exit in between, line-search iterations report)
 
 Fail closed: a construct the translator does not know, a missing statement, or a goal that no longer proves is reported as a broken
 tie (the model and the code may have diverged); a coqc killed from outside is counted as skipped, never a verdict.  Incidental
@@ -18,7 +20,7 @@ accepted (the goals are proved with `ring`, the pairing mode is universally quan
 import ast, os, shutil, subprocess, warnings
 
 PRELUDE = """From Coq Require Import List Arith Lia Bool Ring.
-From TLV Require Import Base.Shape Base.PyList Base.Tensor Base.BigSum Base.Ops Model.Errors Proofs.ErrorsProofs Proofs.ErrorsP2.
+From TLV Require Import Base.Shape Base.PyList Base.Tensor Base.BigSum Base.Ops Model.Errors Proofs.ErrorsProofs Proofs.ErrorsP2 Proofs.ErrorsSkeleton.
 Import ListNotations.
 Lemma even_mod2 n : Nat.even n = (n mod 2 =? 0).
 Proof.
@@ -265,6 +267,76 @@ Qed.
 """
 
 
+# ----------------------------------------------------------------------------- statement order of the CP loops
+def _calls(node):
+    return [(_callname(c), c) for c in ast.walk(node) if isinstance(c, ast.Call)]
+
+
+def _ends_with_break(body):
+    return bool(body) and isinstance(body[-1], ast.Break)
+
+
+def loop_flags(fn):
+    """source-order events of the `for iteration in range(n_iter_max)` loop of a CP driver:
+    (norm_in_sweep, norm_before_error, report_linesearch, error_before_append, no_break_before_append).  Deliberately NOT extracted
+    (harmless for C06): whether the exits normalise, where the callback sits relative to the append."""
+    loops = [n for n in ast.walk(fn) if isinstance(n, ast.For) and getattr(n.target, "id", "") == "iteration"]
+    if len(loops) != 1:
+        raise Untranslatable(f"{fn.name}: expected one `for iteration in ...` loop, found {len(loops)}")
+    ev = []          # (token, guards)
+
+    def visit(stmts, guards):
+        for st in stmts:
+            if isinstance(st, ast.For) and getattr(st.target, "id", "") == "mode":
+                ev.append(("U", guards, any(nm == "cp_normalize" for nm, _ in _calls(st))))
+                continue
+            if isinstance(st, ast.If):
+                if _ends_with_break(st.body):
+                    ev.append(("B", guards, any(nm == "cp_normalize" for nm, _ in _calls(st))))
+                    continue
+                g = guards + [ast.unparse(st.test)]
+                visit(st.body, g)
+                visit(st.orelse, guards + ["not (" + ast.unparse(st.test) + ")"])
+                continue
+            if isinstance(st, (ast.For, ast.While, ast.With, ast.Try)):
+                raise Untranslatable(f"{fn.name}: unexpected compound statement in the iteration loop: {type(st).__name__}")
+            if isinstance(st, ast.Break):
+                ev.append(("B", guards, False))
+                continue
+            for nm, c in _calls(st):
+                if nm in ("error_calc", "cp_norm"):
+                    ev.append(("E", guards, None))
+                elif nm == "append" and isinstance(c.func, ast.Attribute) and ast.unparse(c.func.value) == "rec_errors":
+                    ev.append(("A", guards, None))
+                elif nm == "cp_normalize":
+                    ev.append(("N", guards, None))
+                elif nm == "callback":
+                    ev.append(("C", guards, None))
+    visit(loops[0].body, [])
+    toks = [t for t, _, _ in ev]
+    if toks.count("U") != 1 or "A" not in toks or "E" not in toks:
+        raise Untranslatable(f"{fn.name}: sweep / error computation / rec_errors.append not found in the iteration loop: {toks}")
+    iu, ia = toks.index("U"), toks.index("A")
+    nis = ev[iu][2]
+    nbe = any(t == "N" for t in toks[iu + 1:ia])
+    rls = not any("not line_iter" in g for g in ev[ia][1])
+    eba = iu < toks.index("E") < ia
+    nbb = "B" not in toks[:ia]           # no exit between the sweep and the append (a value is recorded for every executed sweep)
+    return nis, nbe, rls, eba, nbb
+
+
+def cfg_goal(name, fn, expect_nis):
+    nis, nbe, rls, eba, nbb = loop_flags(fn)
+    b = lambda x: "true" if x else "false"
+    return f"loop_order_{name}", f"""
+(* {name}: norm_in_sweep={nis} norm_before_error={nbe} report_linesearch={rls} error_before_append={eba} no_break_before_append={nbb} *)
+Lemma tie_cfg_{name} :
+  well_formed (mkConfig [0; 1; 2] 2 true {b(nis)} {b(nbe)} true {b(rls)} true) /\\
+  {b(nis)} = {b(expect_nis)} /\\ {b(eba)} = true /\\ {b(nbb)} = true.
+Proof. repeat split; try discriminate; reflexivity. Qed.
+"""
+
+
 def ties(repo):
     """[(name, goal text or None, reason)]"""
     def tree(rel):
@@ -281,6 +353,9 @@ def ties(repo):
         ("parafac2", lambda: p2_goal(_fn(p2, "_parafac2_reconstruction_error"))),
         ("line_iter_parafac", lambda: line_goal("parafac", _fn(cp, "parafac"))),
         ("line_iter_parafac2", lambda: line_goal("parafac2", _fn(p2, "parafac2"))),
+        ("loop_order_parafac", lambda: cfg_goal("parafac", _fn(cp, "parafac"), False)),
+        ("loop_order_non_negative_parafac", lambda: cfg_goal("non_negative_parafac", _fn(nn, "non_negative_parafac"), True)),
+        ("loop_order_non_negative_parafac_hals", lambda: cfg_goal("non_negative_parafac_hals", _fn(nn, "non_negative_parafac_hals"), True)),
     ]
     out = []
     for name, mk in makers:
